@@ -64,4 +64,77 @@ CHECKS.update({
     },
 })
 
+CHECKS.update({
+    "C02": {
+        "level": "exploration",
+        "technique": "runtime monitoring: authored-value oracle on the real decode -> extract pipeline and on `reuse lint --json` over files (4 KiB window, snippet marker)",
+        "text": "every (comment style, form, tag kind, line ending) cell is rendered from labelled parts whose VALUE the generator knows; "
+                "the real reader must return exactly those values; on-disk sample for the 4096-byte window, snippet markers and "
+                "unparseable expressions. Two mechanisms of the pinned tree are listed as known findings.",
+        "note": "trusted: canonical rendering of licence expressions; grey classes listed in the evidence are not generated",
+    },
+    "C03": {
+        "level": "exploration",
+        "technique": "runtime monitoring: covered-file model + `git check-ignore` as oracle for the examined sets of lint / spdx / lint-file / annotate -r",
+        "text": "trees built from names on both sides of every exclusion rule (files, empty files, directories, symlinks), without VCS and "
+                "in real Git repositories with .gitignore files, mixed tracking states, submodules and subprojects/, under all four "
+                "option combinations; the set of files each command examines must equal the model's covered set.",
+        "note": "trusted: the name+kind model, Git's own check-ignore; nested LICENSES/.reuse/subprojects are grey; other VCSs not installed",
+    },
+    "C07": {
+        "level": "exploration",
+        "technique": "runtime monitoring: success => exact read-back through the real linter, requested notices built independently; must-succeed classes required to succeed",
+        "text": "every entry of the file-type tables (complete) and sampled option combinations are annotated by the real CLI and read back "
+                "with `reuse lint --json` (contributors with the tool's extractor); information-dropping templates and holders "
+                "ending in comment terminators must be refused.",
+        "note": "trusted: models/notice.py (documented prefix table); --force-dot-license over an in-file header is a listed known finding",
+    },
+    "C08": {
+        "level": "exploration",
+        "technique": "runtime monitoring: labelled-line diff oracle on the bytes before/after `reuse annotate` (single change window)",
+        "text": "bodies of uniquely labelled lines in every comment style, both modes, three line-ending conventions, with/without final "
+                "newline, BOM, first-line declarations and existing headers; everything outside one change window must be byte-identical "
+                "and the window may only hold the header, adjacent blank lines and the right-strip of the line above.",
+        "note": "trusted: the window oracle; mixed line endings and own-style comments contiguous with a header are grey",
+    },
+    "C09": {
+        "level": "exploration",
+        "technique": "runtime monitoring: running model anchored on observations over command histories; icontract post-condition on create_header in situ",
+        "text": "sequences of 2-6 / 2-12 annotate invocations with independent option draws per step; after every successful step the "
+                "read-back must include the previous read-back plus the request (holders and year coverage under --merge-copyrights); "
+                "failed and skipped steps must leave the bytes alone.",
+        "note": "trusted: lint read-back as observation; two mechanisms listed as known findings",
+    },
+    "C10": {
+        "level": "exploration",
+        "technique": "runtime monitoring: byte equality after the 1st / 2nd / 5th identical invocation, header-block count",
+        "text": "all file types x modes (complete in both tiers), all --style values, dot-license, templates, prefix/year options, several "
+                "bodies; annotate twice and five times.",
+        "note": "bodies free of other REUSE tags, as the property's quantifier says",
+    },
+    "C11": {
+        "level": "fault_enumeration",
+        "technique": "runtime monitoring with fault enumeration: tree snapshot + audit-hook mutation log + exit status over invocations with a chosen failing subset",
+        "text": "invocations over 2-5 files where the recipe decides which must fail (cause x position x .license option x sibling); "
+                "reported-failed files must be untouched, the rest processed, exit 1 iff a failure was reported, usage errors before "
+                "any mutation event.",
+        "note": "two layers: consistency with the tool's own report (any cause), and expected failures by cause",
+    },
+    "C16": {
+        "level": "fault_enumeration",
+        "technique": "runtime monitoring with fault enumeration: escaping-exception monitor (CliRunner exc_info), exit status and diagnostic over enumerated malformed configurations, hostile files and failpoints",
+        "text": "key x TOML type table (complete), truncation of REUSE.toml / dep5 at every byte, byte flips, hostile covered files incl. "
+                "EACCES / vanish / becomes-directory failpoints from an audit hook, hostile LICENSES/, broken templates, crossed with "
+                "the subcommands; nothing but SystemExit may leave main().",
+        "note": "three-class oracle (valid / definitely broken / grey); broken Jinja templates are a listed known finding",
+    },
+    "C20": {
+        "level": "exploration",
+        "technique": "runtime monitoring: (prefix, years, holder) oracle on the real make_copyright_line / merge_copyright_lines / reader and on annotate + lint round trips; icontract post-condition on merge in situ",
+        "text": "complete product of holder classes x year forms x ten prefixes for building, random notice sets for merging, CLI round "
+                "trips with --year x0/x1/x2 and --merge-copyrights.",
+        "note": "holders containing notice-like tokens or starting with four digits are grey",
+    },
+})
+
 NOT_APPLICABLE = {}
